@@ -816,6 +816,35 @@ def case_objhistory(mon, seedval):
                            "fresh_object": repr(want)[:300]})
         if not ok:
             return
+        if rng.random() < 0.5:
+            # the tolerance changed *after* the data were loaded: the same
+            # answers as an object that was given the tolerance first
+            t = rng.choice((1e-9, 1e-11, 1e-8, 1e-10, 1e-10))
+            q2 = rng.randrange(1 << 30)
+            try:
+                ref = I()
+                ref.set_tolerance(t)
+                ref.set(list(xs), list(ys))
+                want = queries(ref, xs, random.Random(q2))
+                obj.set_tolerance(t)
+                steps.append("set_tolerance(%g)" % t)
+                got = queries(obj, xs, random.Random(q2))
+            except Exception as ex:
+                mon.dev("history.answers==fresh-object",
+                        {"seed": seedval, "steps": steps,
+                         "raised": repr(ex)})
+                return
+            mon.check("history.answers==fresh-object", got == want,
+                      lambda: {"seed": seedval, "steps": list(steps),
+                               "x": xs, "y": ys,
+                               "tolerance_after_data": repr(got)[:300],
+                               "tolerance_before_data": repr(want)[:300]})
+            if got != want:
+                return
+            # back to the default, so that the next load is compared with
+            # a fresh object again
+            obj.set_tolerance(1e-10)
+            steps.append("set_tolerance(1e-10)")
     mon.cls("object-with-history", ("hist", seedval), steps)
     # a copy (constructor form and set() form) and its source, each re-loaded
     # afterwards: the other one keeps answering as before
